@@ -204,71 +204,38 @@ def run(ctx, report: Report) -> None:
                     r1.violation(f'css_match.{q} literal attribute {v}', mmod.where(c),
                                  f'{q} looks up the attribute {v!r}; HTML lookups compare against the lower-cased document name')
 
-    # ---- R2 ----------------------------------------------------------------------------------------------
-    r2 = report.rule('C11-R2', 'the type attribute: flag table and case-sensitive twin', floor=12)
-    pmod, pas = src.func('css_parser.CSSParser.parse_attribute_selector')
-    chain = None
-    for n in walk_no_nested(pas):
-        if isinstance(n, ast.If) and isinstance(n.test, ast.Name) and n.test.id == 'case':
-            chain = n
-    if chain is None:
-        raise AnalysisError('parse_attribute_selector: `if case:` flag chain not found')
+    # ---- R2 (tables by partial evaluation of parse_attribute_selector and match_attributes) -----------------
+    r2 = report.rule('C11-R2', 'the type attribute: flag table and case-sensitive twin', floor=40)
+    from .sem import attribute_patterns, helper_tables
     I, S = int(re.I), int(re.S)
     bad = None
-    for case in (None, 'i', 's'):
-        for attr in ('type', 'TYPE', 'Type', 'href'):
-            env = {'case': case, 'attr': attr, 'is_type': False, 'flags': None}
-            try:
-                ev = miniev.MiniEval(env, consts=lambda n: {'re.I': I, 're.DOTALL': S, 're.S': S, 're.IGNORECASE': I}[n],
-                                     calls={'util.lower': eval_lower})
-                ev.block([chain])
-            except (miniev.Unsupported, KeyError) as e:
-                raise AnalysisError(f'parse_attribute_selector flag chain: outside the evaluable fragment: {e}')
-            flags, is_type = ev.env['flags'], ev.env['is_type']
-            is_t = attr.lower() == 'type'
-            exp_flags = (I if case == 'i' else 0) | S if case else ((I | S) if is_t else S)
-            exp_type = bool(is_t and not case)
-            r2.instance({'case_flag': case, 'attribute': attr, 'flags': flags, 'is_type': is_type,
-                         'expected': [exp_flags, exp_type]}, key=f'{case}|{attr}')
-            if (flags, bool(is_type)) != (exp_flags, exp_type) and bad is None:
-                bad = (case, attr, flags, is_type, exp_flags, exp_type)
+    for row in attribute_patterns(ctx):
+        if row['op'] is None:
+            continue
+        case = row['case'].lower() if row['case'] else None
+        is_t = row['attr'].lower() == 'type'
+        exp_flags = ((I if case == 'i' else 0) | S) if case else ((I | S) if is_t else S)
+        exp_twin = bool(is_t and not case)
+        got_twin = row['twin_pattern'] is not None
+        ok = row['flags'] == exp_flags and got_twin == exp_twin and (not got_twin or (
+            row['twin_pattern'] == row['pattern'] and not (row['twin_flags'] & I)))
+        r2.instance({'selector': f'[{row["attr"]}{row["op"]}"{row["value"]}"{" " + row["case"] if row["case"] else ""}]',
+                     'flags': row['flags'], 'twin': got_twin, 'expected_flags': exp_flags, 'expected_twin': exp_twin},
+                    key=f'{row["attr"]}|{row["op"]}|{row["value"]}|{row["case"]}', sample_cap=3)
+        if not ok and bad is None:
+            bad = (row, exp_flags, exp_twin)
     r2.obligation(bad is None)
     if bad is not None:
-        case, attr, flags, is_type, ef, et = bad
-        r2.violation('parse_attribute_selector case flags', pmod.where(chain),
-                     f'[{attr}=v{" " + case if case else ""}]: flags={flags}, type-twin={is_type}; expected flags={ef} '
-                     f'(IGNORECASE={I}, DOTALL={S}), type-twin={et}: i/s force the comparison, type is insensitive in HTML and gets '
-                     f'a case-sensitive twin for XML')
-    # twin compiled iff is_type, from the same source
-    twin = [st for st in walk_no_nested(pas) if isinstance(st, ast.Assign) and isinstance(st.value, ast.Call)
-            and call_name(st.value) == 're.compile' and st.value.args and unparse(st.value.args[0]).endswith('.pattern')]
-    ok = len(twin) == 1 and isinstance(pmod.parents.get(twin[0]), ast.If) and 'is_type' in unparse(pmod.parents[twin[0]].test)
-    r2.instance({'twin': unparse(twin[0]) if twin else None, 'compiled_only_for_type': ok}, key='twin')
-    r2.obligation(ok)
-    if not ok:
-        r2.violation('parse_attribute_selector twin', pmod.where(pas), 'the case-sensitive twin of the type pattern is not compiled under `is_type`')
-    _, ma = src.func('css_match.CSSMatch.match_attributes')
-    sel = [st for st in walk_no_nested(ma) if isinstance(st, ast.Assign) and 'xml_type_pattern' in unparse(st.value)]
-    if len(sel) != 1:
-        raise AnalysisError('match_attributes: twin selection not found')
-    loopvar = unparse(sel[0].value).split('.xml_type_pattern')[0].split()[-1]
-    bad = None
-    for is_xml in (False, True):
-        for twin_v in (None, 'TWIN'):
-            def consts(name, _x=is_xml, _t=twin_v):
-                return {'self.is_xml': _x, f'{loopvar}.xml_type_pattern': _t, f'{loopvar}.pattern': 'MAIN'}[name]
-            try:
-                got = miniev.MiniEval({}, consts=consts).ev(sel[0].value)
-            except (miniev.Unsupported, KeyError) as e:
-                raise AnalysisError(f'match_attributes twin selection: {e}')
-            exp = 'TWIN' if (is_xml and twin_v) else 'MAIN'
-            r2.instance({'xml': is_xml, 'twin_present': bool(twin_v), 'selected': got, 'expected': exp}, key=f'sel|{is_xml}|{twin_v}')
-            if got != exp and bad is None:
-                bad = (is_xml, twin_v, got, exp)
-    r2.obligation(bad is None)
-    if bad is not None:
-        r2.violation('match_attributes twin selection', mmod.where(sel[0]),
-                     f'match_attributes selects {bad[2]} for xml={bad[0]}, twin={"present" if bad[1] else "absent"}; expected {bad[3]}')
+        row, ef, et = bad
+        r2.violation('parse_attribute_selector case flags', 'soupsieve/css_parser.py (parse_attribute_selector)',
+                     f'[{row["attr"]}{row["op"]}"{row["value"]}"{" " + row["case"] if row["case"] else ""}] is compiled with flags '
+                     f'{row["flags"]} and {"a" if row["twin_pattern"] is not None else "no"} case-sensitive twin (twin flags '
+                     f'{row["twin_flags"]}); expected flags {ef} (IGNORECASE={I}, DOTALL={S}) and {"a" if et else "no"} twin: the i/s '
+                     f'flags force the comparison, an unflagged type attribute is insensitive in HTML and gets a case-sensitive twin '
+                     f'(same pattern, no IGNORECASE) for XML, for every operator')
+    n0 = len(r2.findings)
+    helper_tables(ctx, r2)
+    r2.findings[n0:] = [f for f in r2.findings[n0:] if 'match_attributes' in f.key]
 
     # ---- R3 ----------------------------------------------------------------------------------------------
     r3 = report.rule('C11-R3', 'HTML-only pseudo-classes never match in non-HTML XML', floor=2)
